@@ -26,6 +26,8 @@ CLASSES = ("RSI", "MACD", "ROC", "STOCH", "TSI", "AROON", "ADX", "OBV", "VWAP")
 @st.composite
 def cases(draw, cls, max_n=150):
     cfg = draw(gc.config(cls))
+    if draw(st.integers(0, 9)) == 0:
+        cfg["kw"]["name_suffix"] = draw(st.sampled_from(("b", "v1.5")))  # a legal suffix; dots are sanitised
     w = gc.warmup(cfg)
     n = draw(st.one_of(st.integers(1, w + 3), st.integers(w, max_n), st.integers(w, max_n)))
     if draw(st.integers(0, 3)) == 0:
